@@ -18,13 +18,16 @@ META = {
                   "close request - `closed` is already True with the disconnect hook not yet run (protocol.py sets the flag first); another thread can observe that. "
                   "The second sentence over the requests of a side (c11_ended_nobody_waits, c11_no_phantom_value, c11_issue_after_end): once a side has ended every request "
                   "has its value exactly if the peer's reply was dispatched, else EOFError; threads BLOCKED in poll/wait at that moment are outside the model and are the "
-                  "scheduler scenarios of the harness. "
+                  "scheduler scenarios of the harness. These request theorems name the three generated facts they rest on (closed stream raises EOFError, _cleanup clears the callback table, "
+                  "_async_request refuses a closed channel) and have refutations for a tree without them. close() is not atomic: ECloseServing is a close() during whose before_closed / root "
+                  "request the peer's close request is served; with the guarded handler (generated fact handle_close_guarded) close() raises nothing of its own, with the raw cleanup as "
+                  "handler it raises AttributeError (c11_close_while_serving_*; F91, fixed) - run for real over TCP loopback and compared with the model. "
                   "The guarded shapes of close/_cleanup/_handle_close/serve/serve_all are regenerated from the source; the harness injects a failure at every transport call and at "
                   "byte offsets inside packets for a family of workloads and all close orders, checks the property on both real sides and replays each side's entry points in the model.",
     "level_note": "Trusted: Coq kernel, pygen, extraction+driver, the fault-injecting MemStream (a failing call closes the stream and raises EOFError, as SocketStream does; the peer then "
                   "reads end-of-stream). Threads racing on one side's close() and __del__ timing are outside; 'nobody hanging' is observed under a virtual clock (every wait is bounded).",
     "technique": "Coq proof by induction over histories of entry points with universally quantified fault outcomes; generated guarded-shape facts; exhaustive single-fault enumeration on the real code",
-    "gen": ["lifecycle", "stream", "protocol"],
+    "gen": ["lifecycle", "stream", "protocol", "dispatch"],
     "shapes": ["lifecycle.*", "protocol.Connection.close", "protocol.Connection.serve", "protocol.Connection._handle_close", "stream.*",
                "protocol.Connection._cleanup", "protocol.Connection.serve_all", "protocol.Connection.poll", "protocol.Connection.poll_all", "protocol.Connection.sync_request",
                "protocol.Connection._async_request", "protocol.Connection._dispatch", "protocol.Connection._dispatch_response"],
